@@ -713,13 +713,19 @@ Definition full_fields : list rfield := [FFill; FAlign; FWidth; FPrecision; FRep
 
 Definition fill_str (f : option (list N)) : list N := match f with Some g => g | None => [] end.
 
+(* the renderer's representation characters are exactly the parser's (two generated tables,
+   compared by computation: breaks if render_format_options and StringFormatOptions::parse disagree) *)
+Lemma render_char_of_repr_eq : forall r, render_char_of_repr r = char_of_repr r.
+Proof. intro r; destruct r; reflexivity. Qed.
+
 Lemma render_full_eq : forall o,
   render_fields full_fields o =
   fill_str (o_fill o) ++ align_chars (o_alignment o) ++
   tail_str (o_min_width o) (o_precision o) (o_repr o).
 Proof.
   intro o. unfold render_fields, full_fields, tail_str. cbn [flat_map render_field].
-  rewrite app_nil_r. reflexivity.
+  rewrite app_nil_r.
+  destruct (o_repr o) as [r|]; [rewrite render_char_of_repr_eq|]; reflexivity.
 Qed.
 
 Lemma with_tail_fresh : forall a f zf w p rp,
@@ -904,48 +910,25 @@ Section Roundtrip.
     rewrite HL. f_equal. unfold s. rewrite <- Hrest. reflexivity.
   Qed.
 
-  (* today's renderer and the five-field renderer agree on options without a representation *)
-  Lemma render_sfo_no_repr : forall o, drops_repr o = false ->
-    render_sfo o = render_fields full_fields o.
-  Proof.
-    intros o H. unfold drops_repr in H. destruct (o_repr o) eqn:E; [discriminate|].
-    unfold render_sfo, render_fields, gen_render_fields, full_fields.
-    cbn [flat_map render_field]. rewrite E, ?app_nil_r. reflexivity.
-  Qed.
+  (* the renderer regenerated from render_format_options writes all five fields *)
+  Lemma render_sfo_full : forall o, render_sfo o = render_fields full_fields o.
+  Proof. intro o. reflexivity. Qed.
 
-  (* A2: outside the class drops_repr, for ALL format strings *)
-  Theorem format_spec_roundtrip_partial : forall s o,
-    parse s = FOk o -> drops_repr o = false -> parse (render_sfo o) = FOk o.
+  (* C11's clause for format options, at full strength, for ALL format strings:
+     re-parsing what the formatter writes gives the options the parser had *)
+  Theorem format_spec_roundtrip : forall s o,
+    parse s = FOk o -> parse (render_sfo o) = FOk o.
   Proof.
-    intros s o H D. rewrite render_sfo_no_repr by exact D.
-    eapply format_spec_roundtrip_fixed. exact H.
+    intros s o H. rewrite render_sfo_full. eapply format_spec_roundtrip_fixed. exact H.
   Qed.
 End Roundtrip.
 
-(* A1.  The property as stated: "re-parsing what the formatter writes gives the options the
-   parser had" *)
-Definition format_spec_roundtrip (G : list N -> nat) : Prop :=
-  forall s o, parse_sfo G s = FOk o -> parse_sfo G (render_sfo o) = FOk o.
-
-(* it is FALSE on the faithful model, whatever the grapheme oracle: "x" parses to
-   {representation: HexLower}, is rendered as "", which parses to the default options *)
-Theorem format_spec_roundtrip_refuted : forall G : list N -> nat,
-  exists s o, parse_sfo G s = FOk o /\ parse_sfo G (render_sfo o) <> FOk o.
-Proof.
-  intro G. exists [120], (mksfo ADefault None None None (Some RHexLower)).
-  split; [reflexivity|]. vm_compute. discriminate.
-Qed.
-
-Corollary format_spec_roundtrip_false : forall G, ~ format_spec_roundtrip G.
-Proof.
-  intros G H. destruct (format_spec_roundtrip_refuted G) as [s [o [H1 H2]]].
-  apply H2. apply (H s). exact H1.
-Qed.
-
-(* every option set with a representation is in the refuted class: the rendering re-parses to
-   options WITHOUT representation *)
-Lemma render_sfo_spec_fields : forall o, render_sfo o = render_sfo (set_repr o None).
-Proof. intro o. reflexivity. Qed.
+(* every field matters: two option sets that differ in the representation are rendered differently
+   (the defect fixed by koto 06483c8 was exactly render_sfo o = render_sfo (set_repr o None)) *)
+Lemma render_sfo_writes_representation :
+  render_sfo (mksfo ADefault None None None (Some RHexLower))
+  <> render_sfo (mksfo ADefault None None None None).
+Proof. vm_compute. discriminate. Qed.
 
 (* ------------------------------------------------------------------ *)
 (* non-vacuity                                                         *)
@@ -976,12 +959,12 @@ Example ex_render_5_9 :
   render_sfo (mksfo ADefault (Some 5) (Some 9) None None) = [53; 46; 57].
 Proof. vm_compute. reflexivity. Qed.
 
-(* "x": the representation is lost *)
+(* "x": the representation is written back *)
 Example ex_parse_x :
   parse_sfo G1 [120] = FOk (mksfo ADefault None None None (Some RHexLower)).
 Proof. vm_compute. reflexivity. Qed.
 Example ex_render_x :
-  render_sfo (mksfo ADefault None None None (Some RHexLower)) = [].
+  render_sfo (mksfo ADefault None None None (Some RHexLower)) = [120].
 Proof. vm_compute. reflexivity. Qed.
 Example ex_render_x_fixed :
   render_fields full_fields (mksfo ADefault None None None (Some RHexLower)) = [120].
@@ -1017,7 +1000,5 @@ Proof. vm_compute. reflexivity. Qed.
 Example ex_dec_digits : dec_digits 0 = [48] /\ dec_digits 4294967295 = [52;50;57;52;57;54;55;50;57;53].
 Proof. vm_compute. split; reflexivity. Qed.
 
-Print Assumptions format_spec_roundtrip_partial.
+Print Assumptions format_spec_roundtrip.
 Print Assumptions format_spec_roundtrip_fixed.
-Print Assumptions format_spec_roundtrip_refuted.
-Print Assumptions render_sfo_spec_fields.
